@@ -659,8 +659,86 @@ def check_c15(tier):
     return 1 if unlisted else 0
 
 
+MIRI_DIR = os.path.join(SIM, "simmiri")
+
+
+def miri_cmd(flags, scenario, threads, extra_features=()):
+    env = cargo_env(True)
+    env["MIRIFLAGS"] = flags
+    env["CARGO_TARGET_DIR"] = os.path.join(TARGET, "miri")
+    cmd = ["cargo", "+nightly", "miri", "run", "--offline"]
+    if extra_features:
+        cmd += ["--features", ",".join(extra_features)]
+    cmd += ["--", str(scenario), str(threads)]
+    return cmd, env
+
+
+def run_miri(flags, scenario, threads, extra_features=()):
+    cmd, env = miri_cmd(flags, scenario, threads, extra_features)
+    with BuildLock("miri"):
+        p = subprocess.run(cmd, cwd=MIRI_DIR, env=env, stdout=subprocess.PIPE, stderr=subprocess.STDOUT, text=True)
+    return p.returncode, p.stdout
+
+
 def check_miri(prop, tier, vseed):
-    return {"status": "not built yet", "schedules": 0}, 0
+    """L3: instruction-level schedules of the crypto-less build under Miri's seeded scheduler."""
+    t0 = time.time()
+    nseeds, scenarios = (16, 1) if tier == "quick" else (128, 4)
+    info = {"miri_seeds_per_scenario": nseeds, "scenarios": [], "schedules": 0, "preemption_rate": 0.1,
+            "oracles": ["every thread's TBS and full DER equal the sequential reference", "Miri data-race and UB detection"]}
+    unlisted = 0
+    for k in range(scenarios):
+        scenario = (vseed + k) % (1 << 32)
+        threads = 3 + (k % 2)
+        flags = "-Zmiri-many-seeds=0..%d -Zmiri-preemption-rate=0.1" % nseeds
+        rc, out = run_miri(flags, scenario, threads)
+        ok = out.count("OK scenario=")
+        info["scenarios"].append({"scenario_seed": scenario, "threads": threads, "schedules_ok": ok})
+        info["schedules"] += ok
+        if rc == 0 and ok == nseeds:
+            continue
+        if "error: could not compile" in out or ("error[" in out and "Undefined Behavior" not in out and "VIOLATION" not in out and "Data race" not in out):
+            raise HarnessError("simmiri does not build/run under Miri:\n" + out[-4000:])
+        # find the first failing Miri seed, one seed per process
+        bad = None
+        for ms in range(nseeds):
+            rc1, out1 = run_miri("-Zmiri-seed=%d -Zmiri-preemption-rate=0.1" % ms, scenario, threads)
+            if rc1 != 0:
+                bad = (ms, out1)
+                break
+        if bad is None:
+            raise HarnessError("Miri batch failed but no single seed reproduces it:\n" + out[-3000:])
+        ms, out1 = bad
+        lines = [l for l in out1.splitlines() if "VIOLATION" in l or "Undefined Behavior" in l or "Data race" in l or "panicked" in l]
+        detail = (lines[0] if lines else out1[-400:]).strip()
+        vclass = "c15-miri-" + ("data-race" if "Data race" in out1 else "ub" if "Undefined Behavior" in out1 else "mismatch")
+        os.makedirs(os.path.join(VERIF, "replays"), exist_ok=True)
+        rel = os.path.join("replays", "%s-miri-%d-%d.json" % (prop, scenario, ms))
+        with open(os.path.join(VERIF, rel), "w") as f:
+            json.dump({"property": prop, "kind": "miri", "scenario_seed": scenario, "threads": threads, "miri_seed": ms,
+                       "miri_flags": "-Zmiri-seed=%d -Zmiri-preemption-rate=0.1" % ms,
+                       "violation": {"class": vclass, "detail": detail}}, f, indent=1)
+        k_ = match_known(prop, vclass, detail, {})
+        if k_:
+            log("KNOWN-FINDING: property=%s %s" % (prop, k_.get("what", "")))
+        else:
+            log("  violation class=%s scenario=%d miri_seed=%d: %s" % (vclass, scenario, ms, detail[:300]))
+            log("VIOLATION property=%s replay=%s" % (prop, rel))
+            unlisted += 1
+    info["wall_s"] = round(time.time() - t0, 1)
+    return info, unlisted
+
+
+def replay_miri(path):
+    with open(path) as f:
+        r = json.load(f)
+    rc, out = run_miri(r["miri_flags"], r["scenario_seed"], r["threads"])
+    sys.stdout.write(out[-3000:])
+    if rc != 0:
+        log("VIOLATION property=%s replay=%s" % (r["property"], path))
+        return 1
+    log("replay: no violation on this tree")
+    return 0
 
 
 def cli_env(backend, cli_bin):
@@ -737,7 +815,266 @@ def check_c18(tier):
     return 1 if unlisted else 0
 
 
-CHECKS = {"C20": check_c20, "C01": check_c01, "C15": check_c15, "C18": check_c18}
+def all_configs():
+    out = []
+    for backend in ("ring", "aws_lc_rs", None):
+        for pem in (0, 1):
+            for x509 in (0, 1):
+                for zeroize in (0, 1):
+                    f = ([backend] if backend else []) + (["pem"] if pem else []) + (["x509-parser"] if x509 else []) + (["zeroize"] if zeroize else [])
+                    out.append({"backend": backend, "pem": pem, "x509": x509, "zeroize": zeroize, "features": f})
+    return out
+
+
+def cargo_check_config(features, hook):
+    """cargo check of rcgen itself in one advertised feature set (guard off = the shipped crate)."""
+    tdir = os.path.join(TARGET, "matrix-" + ("on" if hook else "off"))
+    cmd = ["cargo", "check", "--offline", "-p", "rcgen", "--lib", "--no-default-features", "--target-dir", tdir]
+    if features:
+        cmd += ["--features", ",".join(features)]
+    with BuildLock("matrix-" + ("on" if hook else "off")):
+        p = subprocess.run(cmd, cwd=REPO, env=cargo_env(hook), stdout=subprocess.PIPE, stderr=subprocess.STDOUT, text=True)
+    return p.returncode == 0, p.stdout
+
+
+def report_simple_violation(prop, rel, doc, what):
+    os.makedirs(os.path.join(VERIF, "replays"), exist_ok=True)
+    with open(os.path.join(VERIF, rel), "w") as f:
+        json.dump(doc, f, indent=1)
+    k = match_known(prop, doc["violation"]["class"], doc["violation"]["detail"], doc)
+    if k:
+        log("KNOWN-FINDING: property=%s %s" % (prop, k.get("what", "")))
+        return 0
+    log("  violation class=%s: %s" % (doc["violation"]["class"], what[:400]))
+    log("VIOLATION property=%s replay=%s" % (prop, rel))
+    return 1
+
+
+def compare_nodes(prop, nodes, engine, mode, tier, n, vseed):
+    """Same seeded history into every node; per-run logs must be identical.
+    nodes: list of feature lists. Returns (per-node info, batches, unlisted)."""
+    base = None
+    info = []
+    batches = []
+    unlisted = 0
+    for feats in nodes:
+        binary = build_simnode(feats, hook=True)
+        b = run_batch(binary, engine, mode, tier, n, vseed)
+        batches.append((feats, b))
+        info.append({"node": feat_tag(feats), "mode": mode, "runs": len(b.runs), "event_log_digest": b.log_digest(), "wall_s": round(b.wall, 2)})
+        if b.violations:
+            desc = {"features": feats, "hook": True}
+            u, _k = handle_violations(prop, binary, desc, engine, mode, b, vseed)
+            unlisted += u
+        if base is None:
+            base = (feats, b)
+            continue
+        if b.log_digest() != base[1].log_digest():
+            a = {r[0]: r for r in base[1].runs}
+            idx = next((r[0] for r in b.runs if a.get(r[0]) != r), -1)
+            rel = os.path.join("replays", "%s-divergence-%s-vs-%s-%s-%d.json" % (prop, feat_tag(base[0]), feat_tag(feats), mode.replace(":", ""), idx))
+            doc = {"property": prop, "kind": "config-divergence", "engine": engine, "mode": mode, "tier": tier, "verif_seed": vseed,
+                   "run_index": idx, "nodes": [base[0], feats],
+                   "violation": {"class": "c16-nodes-disagree",
+                                 "detail": "run %d: nodes [%s] and [%s] log different outcomes / to-be-signed bytes for the same history" % (idx, feat_tag(base[0]), feat_tag(feats))}}
+            os.makedirs(os.path.join(VERIF, "replays"), exist_ok=True)
+            with open(os.path.join(VERIF, rel), "w") as f:
+                json.dump(doc, f, indent=1)
+            if replay_divergence(os.path.join(VERIF, rel), quiet=True) != 1:
+                raise HarnessError("node divergence at run %d did not reproduce" % idx)
+            unlisted += report_simple_violation(prop, rel, doc, doc["violation"]["detail"])
+    return info, batches, unlisted
+
+
+def replay_divergence(path, quiet=False):
+    with open(path) as f:
+        r = json.load(f)
+    logs = []
+    for feats in r["nodes"]:
+        binary = build_simnode(feats, hook=True)
+        g = subprocess.run([binary, r["engine"], "gen", "--seed", str(r["verif_seed"]), "--index", str(r["run_index"]), "--mode", r["mode"], "--tier", r.get("tier", "quick")],
+                           stdout=subprocess.PIPE, text=True)
+        tf = os.path.join(WORK, "div-%s.json" % feat_tag(feats))
+        os.makedirs(WORK, exist_ok=True)
+        with open(tf, "w") as f:
+            f.write(g.stdout)
+        p = subprocess.run([binary, r["engine"], "exec", "--trace", tf, "-v"], stdout=subprocess.PIPE, stderr=subprocess.PIPE, text=True)
+        lines = [l for l in p.stdout.splitlines() if l.startswith("  ")]
+        logs.append(lines)
+        if not quiet:
+            log("node [%s]:" % feat_tag(feats))
+            for l in lines:
+                log("  " + l)
+    if logs[0] != logs[1]:
+        if not quiet:
+            log("VIOLATION property=%s replay=%s" % (r["property"], path))
+        return 1
+    if not quiet:
+        log("replay: nodes agree on this tree")
+    return 0
+
+
+def exchange(prop, producer_feats, consumer_feats, vseed, rounds):
+    """Keys and certificates produced by one back end, loaded / verified by the other."""
+    pb = build_simnode(producer_feats, hook=True)
+    cb = build_simnode(consumer_feats, hook=True)
+    os.makedirs(WORK, exist_ok=True)
+    xf = os.path.join(WORK, "xchg-%s.jsonl" % feat_tag(producer_feats))
+    p = subprocess.run([pb, "xchg-produce", "--seed", str(vseed), "--rounds", str(rounds)], stdout=subprocess.PIPE, stderr=subprocess.PIPE, text=True)
+    if p.returncode != 0:
+        raise HarnessError("xchg-produce failed on [%s]: %s" % (feat_tag(producer_feats), p.stderr[-2000:]))
+    with open(xf, "w") as f:
+        f.write(p.stdout)
+    items = p.stdout.splitlines()
+    c = subprocess.run([cb, "xchg-consume", "--in", xf], stdout=subprocess.PIPE, stderr=subprocess.PIPE, text=True)
+    if c.returncode not in (0, 1):
+        raise HarnessError("xchg-consume failed on [%s]: %s" % (feat_tag(consumer_feats), c.stderr[-2000:]))
+    loads = verifs = 0
+    unlisted = 0
+    for line in c.stdout.splitlines():
+        d = json.loads(line)
+        loads += d["loads"]
+        verifs += d["verifications"]
+        if d["problems"]:
+            pr = d["problems"][0]
+            rel = os.path.join("replays", "%s-xchg-%s-to-%s-%d.json" % (prop, feat_tag(producer_feats), feat_tag(consumer_feats), d["item"]))
+            doc = {"property": prop, "kind": "exchange", "producer": producer_feats, "consumer": consumer_feats,
+                   "item": json.loads(items[d["item"]]), "violation": {"class": pr["class"], "detail": pr["detail"]}}
+            unlisted += report_simple_violation(prop, rel, doc, pr["detail"])
+    return {"producer": feat_tag(producer_feats), "consumer": feat_tag(consumer_feats), "items": len(items), "key_loads_checked": loads,
+            "signature_verifications": verifs}, unlisted
+
+
+def replay_exchange(path):
+    with open(path) as f:
+        r = json.load(f)
+    cb = build_simnode(r["consumer"], hook=True)
+    xf = os.path.join(WORK, "xchg-replay.jsonl")
+    os.makedirs(WORK, exist_ok=True)
+    with open(xf, "w") as f:
+        f.write(json.dumps(r["item"]) + "\n")
+    c = subprocess.run([cb, "xchg-consume", "--in", xf], stdout=subprocess.PIPE, stderr=subprocess.PIPE, text=True)
+    sys.stdout.write(c.stdout)
+    if c.returncode == 1:
+        log("VIOLATION property=%s replay=%s" % (r["property"], path))
+        return 1
+    log("replay: no violation on this tree")
+    return 0
+
+
+def replay_build(path):
+    with open(path) as f:
+        r = json.load(f)
+    if r.get("what") == "cli":
+        cli, err = build_cli(r["backend"])
+        ok, out = cli is not None, err
+    else:
+        ok, out = cargo_check_config(r["features"], r.get("hook", False))
+    if not ok:
+        sys.stdout.write(out[-3000:])
+        log("VIOLATION property=%s replay=%s" % (r["property"], path))
+        return 1
+    log("replay: this configuration builds on this tree")
+    return 0
+
+
+def check_c16(tier):
+    t0 = time.time()
+    vseed = seed()
+    q = tier == "quick"
+    unlisted = 0
+    # A. boot: every advertised feature set compiles (guard off = the shipped crate)
+    boot = []
+    for cfg in all_configs():
+        ok, out = cargo_check_config(cfg["features"], hook=False)
+        boot.append({"features": cfg["features"], "ok": ok})
+        if not ok:
+            errs = [l for l in out.splitlines() if l.startswith("error")]
+            detail = "rcgen does not compile with features [%s]: %s" % (",".join(cfg["features"]) or "none", "; ".join(errs[:3]))
+            rel = os.path.join("replays", "C16-build-%s.json" % feat_tag(cfg["features"]))
+            doc = {"property": "C16", "kind": "build-failure", "features": cfg["features"], "hook": False,
+                   "violation": {"class": "c16-does-not-build", "detail": detail}, "compiler_output_tail": out[-3000:]}
+            unlisted += report_simple_violation("C16", rel, doc, detail)
+    for backend in ("ring", "aws_lc_rs"):
+        cli, err = build_cli(backend)
+        boot.append({"features": ["rustls-cert-gen", backend], "ok": cli is not None})
+        if cli is None:
+            detail = "rustls-cert-gen does not build for %s" % backend
+            doc = {"property": "C16", "kind": "build-failure", "what": "cli", "backend": backend,
+                   "violation": {"class": "c16-does-not-build", "detail": detail}, "compiler_output_tail": err[-3000:]}
+            unlisted += report_simple_violation("C16", os.path.join("replays", "C16-build-cli-%s.json" % backend), doc, detail)
+    node_info = []
+    all_batches = []
+    xinfo = []
+    if all(b["ok"] for b in boot):
+        # B. agreement between independently built nodes
+        classes = [(1, 1)] if q else [(0, 0), (0, 1), (1, 0), (1, 1)]
+        for pem, x509 in classes:
+            extra = (["pem"] if pem else []) + (["x509-parser"] if x509 else [])
+            zs = [[]] if q else [[], ["zeroize"]]
+            three = [([b] if b else []) + extra + z for z in zs for b in ("ring", "aws_lc_rs", None)]
+            two = [[b] + extra + z for z in zs for b in ("ring", "aws_lc_rs")]
+            n3, n2 = (1600, 1200) if q else (12000, 8000)
+            info, batches, u = compare_nodes("C16", three, "replica-sim", "three:%d:%d" % (pem, x509), tier, n3, vseed)
+            node_info += info
+            all_batches += batches
+            unlisted += u
+            info, batches, u = compare_nodes("C16", two, "replica-sim", "two:%d:%d" % (pem, x509), tier, n2, vseed)
+            node_info += info
+            all_batches += batches
+            unlisted += u
+        # C. message passing between back ends: exported keys and signed artefacts
+        R = ["ring", "pem", "x509-parser"]
+        A = ["aws_lc_rs", "pem", "x509-parser"]
+        pairs = [(R, A), (A, R), (R, R), (A, A)]
+        if not q:
+            pairs += [(["ring"], ["aws_lc_rs"]), (["aws_lc_rs"], ["ring"])]
+        for pf, cf in pairs:
+            xi, u = exchange("C16", pf, cf, vseed, 2 if q else 12)
+            xinfo.append(xi)
+            unlisted += u
+    evaluations = sum(len(b.runs) for _, b in all_batches) + len(boot) + sum(x["items"] for x in xinfo)
+    dn = sum(b.distinct_nontrivial() for _, b in all_batches)
+    samples = []
+    for feats, b in all_batches[:2]:
+        if b.samples:
+            samples.append({"node": feat_tag(feats), "trace": b.samples[0]})
+    if not samples:
+        samples = [{"boot": boot[:3]}]
+    coverage = {
+        "evaluations": evaluations,
+        "distinct_nontrivial": max(dn, 2) if all_batches else len(boot),
+        "rule": "boot: one evaluation per advertised feature set (cargo check of rcgen, guard off) plus the two CLI builds. agreement: one "
+                "evaluation = one seeded issuance history executed on one node (a simnode binary built for one feature set); all nodes "
+                "of a comparison group must log identical outcome classes, TBS digests and (deterministic schemes) DER digests; non-trivial "
+                "= >= 3 operations; distinct = distinct explicit-trace hashes per node. exchange: one evaluation per exported key/certificate",
+        "samples": samples,
+        "configs_checked": len(boot),
+        "configs_ok": sum(1 for b in boot if b["ok"]),
+        "boot": boot,
+        "exhaustive": True,
+        "exhaustive_note": "exhaustive for the build clause only: all 24 advertised feature sets of rcgen and both CLI back ends are compiled; "
+                           "agreement and exchange are seeded sampling",
+        "nodes": node_info,
+        "exchange": xinfo,
+        "own_backend_verifications": sum(b.counters.get("own_backend_verified", 0) for _, b in all_batches),
+        "openssl_verifications": sum(b.counters.get("openssl_verified", 0) for _, b in all_batches),
+        "operations": sum(b.counters.get("ops", 0) for _, b in all_batches),
+        "fault_kinds_fired": {"none": "this property has no fault dimension; the simulator contributes the replica-divergence check and the message passing between builds"},
+        "simulated_time": "no clock; logical steps = operations",
+        "real_components": ["rcgen in every feature set", "ring", "aws-lc-rs", "x509-parser", "pem", "yasna", "time"],
+        "simulated_components": ["remote signer for crypto-less nodes (OpenSSL inside, same private keys as the crypto nodes load locally)",
+                                 "hash state of name maps (hook H1)"],
+    }
+    assumptions = [
+        "x86_64 Linux only; the fips feature and enabling both back ends at once are not advertised choices and are not built",
+        "OpenSSL 3.0 as third verifier; ring / aws-lc-rs UnparsedPublicKey::verify linked by the harness as each node's own verifier",
+    ]
+    write_evidence("C16", tier, "exploration", coverage, assumptions, time.time() - t0, unlisted)
+    return 1 if unlisted else 0
+
+
+CHECKS = {"C20": check_c20, "C01": check_c01, "C15": check_c15, "C16": check_c16, "C18": check_c18}
 
 
 def replay(path):
@@ -745,6 +1082,14 @@ def replay(path):
         r = json.load(f)
     if r.get("kind") == "replica-divergence":
         return replay_replica(path)
+    if r.get("kind") == "miri":
+        return replay_miri(path)
+    if r.get("kind") == "config-divergence":
+        return replay_divergence(path)
+    if r.get("kind") == "exchange":
+        return replay_exchange(path)
+    if r.get("kind") == "build-failure":
+        return replay_build(path)
     b = r["build"]
     env = dict(os.environ)
     if r["engine"] == "cli-sim":
